@@ -101,3 +101,78 @@ Proof.
     match goal with H : (rtype <? 65536) = true |- _ => apply N.ltb_lt in H; exact H end.
   - u32 ttl. constructor; [apply drec_wf; [assumption | destruct https; lia | assumption] | constructor].
 Qed.
+
+(* ---------------------------------------------------------------- NS rdata is one wire name *)
+Lemma parse_name_fuel_pack_ok : forall (z : name) fuel acc,
+  name_ok z -> (length z < fuel)%nat ->
+  parse_name_fuel fuel (pack z) acc = Some (acc ++ pack z, []).
+Proof.
+  induction z as [|l p IH]; intros fuel acc Hz Hf; (destruct fuel as [|fuel]; [lia|]).
+  - reflexivity.
+  - inversion Hz as [|? ? Hl Hp]; subst. destruct Hl as [Hl1 Hl2].
+    rewrite pack_cons. cbn [app parse_name_fuel].
+    assert (E0 : (nlen l =? 0) = false) by lia. rewrite E0.
+    assert (E1 : (64 <=? nlen l) = false) by lia. rewrite E1.
+    assert (E2 : (nlen (l ++ pack p) <? nlen l) = false) by (rewrite nlen_app; lia). rewrite E2.
+    rewrite to_nat_nlen, skipn_app, skipn_all, Nat.sub_diag, firstn_app, firstn_all, Nat.sub_diag.
+    cbn [skipn firstn app]. rewrite app_nil_r.
+    rewrite IH; [|exact Hp | cbn [length] in Hf; lia].
+    rewrite <- app_assoc. reflexivity.
+Qed.
+Lemma length_pack_gt : forall z : name, (length z < length (pack z))%nat.
+Proof. induction z as [|l p IH]; [cbn; lia|]. rewrite pack_cons, app_length. cbn [length]. lia. Qed.
+Lemma parse_name_pack_ok : forall z : name, name_ok z -> nlen (pack z) <= 255 ->
+  parse_name (pack z) = Some (pack z, []).
+Proof.
+  intros z Hz Hlen. unfold parse_name.
+  rewrite (parse_name_fuel_pack_ok z (S (length (pack z))) [] Hz) by (pose proof (length_pack_gt z); lia).
+  cbn [app]. assert (E : (nlen (pack z) <=? 255) = true) by lia. rewrite E. reflexivity.
+Qed.
+
+Lemma ne_labels_name_ok : forall d, Forall lab63 (labels d) -> name_ok (ne_labels d).
+Proof.
+  intros d H. unfold ne_labels, name_ok. induction H as [|x t Hx Ht IH]; [constructor|]. cbn [filter].
+  destruct x as [|c x']; cbn [Text.nonempty]; [exact IH|]. constructor; [|exact IH].
+  unfold lab_ok, lab63 in *. split; [unfold nlen; cbn [length]; lia | exact Hx].
+Qed.
+
+Lemma wire_parse : forall d, wire_okb d = true -> parse_name (wire d) = Some (wire d, []).
+Proof.
+  intros d H. apply wire_okb_spec in H as [H1 H2]. unfold wire in *. rewrite dns_labels_ne in *.
+  apply parse_name_pack_ok; [apply ne_labels_name_ok, labels_okb_spec; exact H1 | exact H2].
+Qed.
+
+Lemma addr_ns_ok : forall dom wild ip ttl lo w, Forall wf_ns_rdata (addr dom wild ip ttl lo w).
+Proof.
+  intros. unfold addr. destruct ip as [a|]; [|constructor].
+  destruct (is4 a); (constructor; [|constructor]); intros X; discriminate X.
+Qed.
+
+Theorem declared_ns_ok : forall r, dns_okb r = true -> Forall wf_ns_rdata (declared r).
+Proof.
+  intros r Hok. destruct r; cbn [declared dns_okb] in *; try (constructor; fail); okb Hok.
+  - constructor; [intros X; discriminate X | constructor].
+  - constructor; [intros X; discriminate X|]. constructor; [|apply addr_ns_ok].
+    intros _. unfold drec. cbn [r_rdata]. apply wire_parse. assumption.
+  - constructor; [|apply addr_ns_ok]. intros _. unfold drec. cbn [r_rdata]. apply wire_parse. assumption.
+  - apply addr_ns_ok.
+  - destruct ip as [a|]; [|constructor]. apply Forall_app. split; [apply addr_ns_ok|].
+    constructor; [intros X; discriminate X | constructor].
+  - constructor; [intros X; discriminate X | apply addr_ns_ok].
+  - constructor; [intros X; discriminate X | apply addr_ns_ok].
+  - constructor; [intros X; discriminate X | constructor].
+  - constructor; [intros X; discriminate X | constructor].
+  - constructor; [intros X; discriminate X | constructor].
+  - constructor; [|constructor]. intros X. unfold drec in X. cbn [r_type] in X. subst rtype.
+    match goal with H : negb _ = true |- _ => cbn in H; discriminate H end.
+  - constructor; [|constructor]. intros X. unfold drec in X. cbn [r_type] in X. destruct https; discriminate X.
+Qed.
+
+(* ---------------------------------------------------------------- whole files *)
+Theorem declared_file_wf : forall rs, Forall (fun r => dns_okb r = true) rs ->
+  wf_recs (flat_map declared rs) /\ Forall wf_ns_rdata (flat_map declared rs).
+Proof.
+  induction 1 as [|r t Hr Ht [IH1 IH2]]; [split; constructor|]. cbn [flat_map]. split.
+  - unfold wf_recs in *. apply Forall_app. split; [apply declared_wf; exact Hr | exact IH1].
+  - apply Forall_app. split; [apply declared_ns_ok; exact Hr | exact IH2].
+Qed.
